@@ -246,6 +246,8 @@ def execute(W, rec):
     op = rec['op']; A = [resolve(W, x) for x in rec.get('args', [])]
     if op == 'new':
         return irlib.CLS[A[0]](*A[1:])
+    if op == 'policy':
+        NM.default = A[0]; return None          # the process-wide naming policy that newly created elements adopt
     if op == 'setattr':
         setattr(A[0], A[1], A[2]); return None
     if op == 'delattr':
@@ -308,11 +310,15 @@ class Gen:
         return ['new', 'create_library', 'create_definition', 'create_port', 'create_cable', 'create_child', 'create_pin',
                 'create_pins', 'create_wire', 'create_wires', 'add', 'remove', 'remove_from', 'reorder', 'reorder_bad',
                 'connect', 'disconnect', 'disconnect_from', 'reference', 'unreference', 'top', 'set_top', 'name', 'data',
-                'deldata', 'popdata', 'scalar', 'wire_pins_proxy', 'add_pin_instanced', 'create_child_dup', 'add_cross', 'repoint_compatible', 'connect_outer']
+                'deldata', 'popdata', 'scalar', 'wire_pins_proxy', 'add_pin_instanced', 'create_child_dup', 'add_cross', 'repoint_compatible', 'connect_outer', 'top_wired', 'policy', 'cross_policy_add']
 
     def next(self):
         r, W = self.r, self.W
         ops = self.OPS()
+        if getattr(self, 'pending', None):
+            rec = self.pending.pop(0)(W)
+            if rec is not None:
+                return rec
         if self.focus and r.random() < 0.5:
             ops = [o for o in ops if o in self.focus] or ops
         for _ in range(20):
@@ -376,6 +382,36 @@ class Gen:
             ws = W.of('Wire'); ops = [i for i in W.of('OuterPin') if W.objs[i]._wire is None and W.objs[i]._instance is not None]
             if not ws or not ops: return None
             return call({'o': r.choice(ws)}, 'connect_pin', {'o': r.choice(ops)}, pos())
+        if op == 'cross_policy_add':
+            # an element built under one naming policy (possibly with an identifier the other policy refuses) is added to a parent
+            # that lives under the other policy: adopted, or refused as a whole
+            rel = r.choice(irlib.REL[:5])
+            parents = [i for i in W.of(rel[0]) if W.objs[i].get('.NS') is not None]
+            if not parents: return None
+            par = r.choice(parents)
+            other = 'DEFAULT' if W.objs[par].get('.NS') == 'EDIF' else 'EDIF'
+            back = NM.default
+            meth = {'libraries': 'add_library', 'definitions': 'add_definition', 'ports': 'add_port', 'cables': 'add_cable', 'children': 'add_child'}[rel[1]]
+            ident = r.choice(['1x', 'x-y', 'a', 'A', 'a_b'])
+            name = nm()
+            def new_index(W_):
+                return len(W_.objs) - 1
+            self.pending = [
+                lambda W_: {'op': 'new', 'args': [rel[2], name]},
+                lambda W_: {'op': 'setitem', 'args': [{'o': new_index(W_)}, 'EDIF.identifier', ident]},
+                lambda W_: {'op': 'policy', 'args': [back]},
+                lambda W_: {'op': 'call', 'args': [{'o': par}, meth, {'o': max(i for i in W_.of(rel[2]))}]},
+            ]
+            return {'op': 'policy', 'args': [other]}
+        if op == 'policy':
+            # elements created from now on adopt the other naming policy: later adds can be cross-policy (adoption or refusal)
+            return {'op': 'policy', 'args': [r.choice(['DEFAULT', 'EDIF'])]}
+        if op == 'top_wired':
+            # an instance whose outer pins are wired becomes the top instance of a netlist (the setter accepts any instance)
+            cand = [i for i in W.of('Instance') if any(o._wire is not None for o in W.objs[i]._pins.values())]
+            n = pick('Netlist', wrong=0)
+            if not cand or n is None: return None
+            return {'op': 'setattr', 'args': [n, 'top_instance', {'o': r.choice(cand)}]}
         if op == 'add_cross':
             # a bundle of the other kind: Port where a Cable is expected and vice versa
             meth, k = r.choice([('add_cable', 'Port'), ('add_port', 'Cable')])
